@@ -433,3 +433,69 @@ def gmis(seed):
     h.emit("put %d %d %s %s" % (t, s, hx("k"), hx("w")))
     h.commit(t)
     return h.text()
+
+
+def g8(seed, shape="multi"):
+    """C08: empty, single-leaf and multi-level buckets; after the commit a read-only transaction
+    runs all seeks and bound pairs over universe + gaps + below-min + above-max; the same reads are
+    also issued mid-transaction after some deletes (leaf boundaries with absent keys, emptied leaves)."""
+    rng = random.Random(seed)
+    h = H()
+    if shape == "empty":
+        nk, kl = 0, 8
+    elif shape == "single":
+        nk, kl = rng.randrange(1, 7), rng.choice([1, 8, 30])
+    else:
+        nk, kl = rng.randrange(8, 30), rng.choice([120, 200, 300])
+    keys = [lk(2 * i + 1, kl) for i in range(nk)]          # odd ids present, even ids are gaps
+    probes = [lk(i, kl) for i in range(0, 2 * nk + 2)] + ["-", "00", "ffff"] + ([keys[0] + "+00"] if keys else [])
+    t = h.begin(True)
+    b = h.bucket("create", t, 0, hx("b"))
+    for i, k in enumerate(keys):
+        h.emit("put %d %d %s %s" % (t, b, k, "r6:%d" % i))
+        if shape == "multi" and rng.random() < 0.7:
+            h.commit(t, verify=False)
+            t = h.begin(True)
+            b = h.bucket("getb", t, 0, hx("b"))
+    if nk and rng.random() < 0.7:
+        s = h.bucket("create", t, b, keys[nk // 2] + "+73")
+        h.emit("put %d %d %s %s" % (t, s, hx("x"), hx("y")))
+    h.commit(t)
+
+    def all_reads(t, b, sample_pairs):
+        h.emit("scan %d %d" % (t, b))
+        h.emit("buckets %d %d" % (t, b))
+        h.emit("kvpairs %d %d" % (t, b))
+        for k in probes:
+            h.emit("seek %d %d %s" % (t, b, k))
+            h.emit("get %d %d %s" % (t, b, k))
+        bs = probes if len(probes) <= 14 else rng.sample(probes, 14)
+        pairs = [(lo, hi) for lo in bs for hi in bs]
+        if len(pairs) > sample_pairs:
+            pairs = rng.sample(pairs, sample_pairs)
+        for lo, hi in pairs:
+            for lkd in "IEU":
+                for hkd in "IEU":
+                    if rng.random() < 0.5:
+                        h.emit("range %d %d %s %s %s %s" % (t, b, lkd, lo, hkd, hi))
+
+    r = h.begin(False)
+    rb = h.bucket("getb", r, 0, hx("b"))
+    all_reads(r, rb, 40)
+    h.emit("drop %d" % r)
+    # mid-transaction: delete a contiguous run (empties leaves), insert in gaps, read again
+    t = h.begin(True)
+    b = h.bucket("getb", t, 0, hx("b"))
+    if nk:
+        lo = rng.randrange(nk)
+        for i in range(lo, min(nk, lo + rng.randrange(1, 8))):
+            h.emit("del %d %d %s" % (t, b, keys[i]))
+        for _ in range(rng.randrange(0, 4)):
+            h.emit("put %d %d %s %s" % (t, b, lk(2 * rng.randrange(nk + 1), kl), hx("g")))
+    all_reads(t, b, 25)
+    h.commit(t)
+    r = h.begin(False)
+    rb = h.bucket("getb", r, 0, hx("b"))
+    all_reads(r, rb, 25)
+    h.emit("drop %d" % r)
+    return h.text()
